@@ -234,6 +234,35 @@ def driver_batch(requests: list[dict], timeout=1800) -> list[dict]:
 
 # --------------------------------------------------------------------------- worker pool
 
+class Hang(Exception):
+    """the code under test did not return within the deadline"""
+
+
+class deadline:
+    """`with deadline(seconds): call()` inside a pool worker (main thread of its process): raises Hang when the call
+    does not return in time — a non-terminating implementation must become a verdict, not a check that never ends"""
+
+    def __init__(self, seconds: float):
+        self.seconds = seconds
+
+    def _raise(self, *_):
+        raise Hang(f"no result after {self.seconds} s")
+
+    def __enter__(self):
+        import signal
+
+        self._old = signal.signal(signal.SIGALRM, self._raise)
+        signal.setitimer(signal.ITIMER_REAL, self.seconds)
+        return self
+
+    def __exit__(self, *exc):
+        import signal
+
+        signal.setitimer(signal.ITIMER_REAL, 0)
+        signal.signal(signal.SIGALRM, self._old)
+        return False
+
+
 def pool_map(fn, items, chunksize=4, procs=None):
     """Run fn over items in worker processes (fork). fn must be a module-level function."""
     import multiprocessing as mp
